@@ -1239,6 +1239,40 @@ func TestVerifC03(t *testing.T) {
 	rep.MergeExplore("insert-body-host-block", st5)
 	stat5.nontrivial += stat5.nontrivialDup / 2
 	rep.AddCounts(0, 0, 0, stat5.nontrivial)
+	// length-prefixed columns at their length boundaries (string tags, string top, string hosts of 1 / 127 / 128 bytes,
+	// unique sets of 127 / 128 values), see verif_c03_strlen_test.go
+	lenT := c03StringLenTemplates()
+	lenItems := make([][]byte, len(lenT))
+	for i := range lenT {
+		it, err := c03BuildItem(&lenT[i])
+		if err != nil {
+			t.Fatalf("template %s: %v", lenT[i].name, err)
+		}
+		b := tlstatshouse.SourceBucket3Bytes{Metrics: []tlstatshouse.MultiItemBytes{it}}
+		lenItems[i] = b.WriteTL1Boxed(nil)
+	}
+	rep.Bounds["string_length_templates"] = len(lenT)
+	rep.Bounds["string_length_max_contributions"] = 3
+	rep.Bounds["string_length_alphabet"] = "0 (absent), 1, 127, 128 (format.MaxStringLen) bytes in: unmapped string tag, string-top key, max host, min host; unique sets of 127 and 128 values"
+	stat6 := &c03Stats{rep: rep}
+	lenAgents := mc.Pick(1, len(c03Agents)) // quick: the agent alternates with the position; thorough: every agent at every position
+	body6 := func(x *mc.Exec) mc.Verdict {
+		L := 1 + x.ChooseFree(3, "number of contributions")
+		seq := make([][2]int, L)
+		for i := range seq {
+			c := x.ChooseFree(len(lenT)*lenAgents, "contribution")
+			if lenAgents == 1 {
+				seq[i] = [2]int{i % len(c03Agents), c}
+			} else {
+				seq[i] = [2]int{c % len(c03Agents), c / len(c03Agents)}
+			}
+		}
+		return c03RunCase(x, decs[x.Worker], lenT, lenItems, seq, 0.5, stat6)
+	}
+	st6 := mc.Explore(body6, mc.Options{Bound: -1, SplitDepth: 3, Shard: k, Shards: n})
+	rep.MergeExplore("insert-body-string-length", st6)
+	stat6.nontrivial += stat6.nontrivialDup / 2
+	rep.AddCounts(0, 0, 0, stat6.nontrivial)
 	// hashes chosen against the sketch's hash table (wrap-around chains across resizes), see verif_c03_adv_test.go
 	st3, stat3 := c03AdversarialPart(t, rep, decs)
 	body := func(x *mc.Exec) mc.Verdict {
@@ -1275,5 +1309,5 @@ func TestVerifC03(t *testing.T) {
 	if err := rep.Write(); err != nil {
 		t.Fatal(err)
 	}
-	t.Logf("C03: executions=%d+%d+%d+%d+%d (main, large-unique, adversarial-unique, key-scratch, host-block) rows judged=%d+%d+%d+%d+%d nontrivial=%d+%d+%d+%d+%d host-block results decoded=%d violations=%d", st.Executions, st2.Executions, st3.Executions, st4.Executions, st5.Executions, stat.rows, stat2.rows, stat3.rows, stat4.rows, stat5.rows, stat.nontrivial, stat2.nontrivial, stat3.nontrivial, stat4.nontrivial, stat5.nontrivial, c03Block.results, rep.NumViolations())
+	t.Logf("C03: executions=%d+%d+%d+%d+%d (main, large-unique, adversarial-unique, key-scratch, host-block; string-length %d) rows judged=%d+%d+%d+%d+%d nontrivial=%d+%d+%d+%d+%d host-block results decoded=%d violations=%d", st.Executions, st2.Executions, st3.Executions, st4.Executions, st5.Executions, st6.Executions, stat.rows, stat2.rows, stat3.rows, stat4.rows, stat5.rows, stat.nontrivial, stat2.nontrivial, stat3.nontrivial, stat4.nontrivial, stat5.nontrivial, c03Block.results, rep.NumViolations())
 }
